@@ -1214,20 +1214,33 @@ class PTA:
                     if els:
                         self.add(('F', n, '[]'), els)
             return {n}
+        if dotted == 'builtins.next':
+            out = set()
+            if pos:
+                for o in pos[0]:
+                    out |= self.iter_elems({o}, node) if o.kind in ('inst', 'ext_inst') else self.elems(o, None, False)
+            for a in pos[1:]:
+                out |= a
+            return out
+        if dotted in ('builtins.iter', 'builtins.enumerate', 'builtins.zip'):
+            n = self.alloc('list', node, tag='iter')
+            els = set()
+            for a in pos:
+                for o in a:
+                    els |= self.iter_elems({o}, node)
+            if dotted == 'builtins.iter':
+                if els:
+                    self.add(('F', n, '[]'), els)
+            else:
+                t = self.alloc('tuple', node, tag='ituple')
+                if els:
+                    self.add(('F', t, '[]'), els)
+                self.add(('F', n, '[]'), [t])
+            return {n}
         if dotted in EXT_ALIAS:
             out = {self.alloc('ext', node, tag='alias')}
             if pos:
                 out |= pos[0]
-                if dotted in ('builtins.iter', 'builtins.enumerate', 'builtins.zip', 'builtins.next'):
-                    n = self.alloc('list', node, tag='iter')
-                    for a in pos:
-                        for o in a:
-                            self.add(('F', n, '[]'), self.iter_elems({o}, node))
-                    # tuples produced by zip/enumerate hold the elements
-                    t = self.alloc('tuple', node, tag='ituple')
-                    self.add(('F', t, '[]'), self.get(('F', n, '[]')))
-                    self.add(('F', n, '[]'), [t])
-                    out = {n} | (self.get(('F', n, '[]')) if dotted == 'builtins.next' else set())
             return out
         if dotted in EXT_NDARRAY_FRESH:
             dt = kwargs.get('dtype', set())
